@@ -80,6 +80,14 @@ SOURCE_TIES = {
              "coq/model/Peak.v's total, scale_by, normalize, shift, clone_shifted, truncate_after, ignore_below, fused, clone_drop_last, "
              "slice_normalized and peak_eq equal the translation of the current peak.rs methods (tools/gen_peak.py -> coq/gen/PeakGen.v; "
              "proofs/PeakTie.v)"),
+    "formula": ("gen_formula.py", "proofs/FormulaTie.vo",
+                "coq/model/Formula.v's parse_formula equals, for every string and every oracle (errors and panics included), the translation of the "
+                "current src/formula.rs: the eight per-state step arms, the end-of-input arms, the helpers, the driver loop and the group recursion "
+                "(28 units; tools/gen_formula.py -> coq/gen/FormulaGen.v; proofs/FormulaTie.v, corollary formula_source_tie)"),
+    "espec": ("gen_espec.py", "proofs/ESpecTie.vo",
+              "coq/model/ESpec.v's espec_parse, quick_check, show_key and key equality equal the translation of the current "
+              "src/element_specification.rs (parse / parse_with / FromStr, quick_check_str, Display, PartialEq<str>, Borrow, Hash, Eq; 13 functions; "
+              "tools/gen_espec.py -> coq/gen/ESpecGen.v; proofs/ESpecTie.v)"),
 }
 
 
